@@ -37,7 +37,33 @@ pub fn def() -> PropertyDef {
     }
 }
 
-const GENS: &[&str] = &["bytes", "soup", "corpus", "grammar", "e1", "multifile", "trivia"];
+const GENS: &[&str] = &["bytes", "soup", "corpus", "grammar", "e1", "multifile", "trivia", "witness"];
+
+/// Inputs on which the front end once panicked, aborted or looped (found by the monitors or reported by independent
+/// seeding agents and reproduced): each runs in every check, alone and behind the prelude.
+const WITNESSES: &[&str] = &[
+    "ret 9999999999999999999999999999999999999999",
+    "@[foo(99999999999999999999)] _",
+    "codata | .a .b : T end",
+    "fix (f : Int64) => ret 1",
+    "! _",
+    "begin def D : D = data | +A : Unit end that ret 0 end",
+    "fn (x : define A = _ in A) => x",
+    "let f (x : define A = Int64 in A) : Int64 = x in f",
+    "let fix (f : define A = Int64 in A) = 1 in f",
+    "begin\n  define A : VType = A that\n  fn (x : A) => match x | (a, b) => ret a end\nend",
+    "begin\n  define A : VType = B that\n  define B : VType = A that\n  let t : A = (1, 2) that\n  ret 0\nend",
+    "ret 1e999",
+    "ret 1\n/- unfinished",
+    "ret 1 -/ garbage (((",
+    " /- a\n\u{a0}b -/\nret ()",
+    "  /- a\n \u{3000}b -/\nret ()",
+    "begin let x = () that let y = () that let (x, y) = ((), ()) that ret () end",
+    "(comatch | x => ret x | x y => ret y end : Int64 -> Int64 -> Ret Int64)",
+    "begin def K : CType = codata | .open : codata | .right : Ret Int64 end end that (comatch | .open => ret 1 | .open .right => ret 2 end : K) end",
+    "-- ééé\nfoo bar",
+    "let s = \"ééééééééééééééééééééééééééééééééééééééé\" in zzz",
+];
 
 fn generators(cfg: &Cfg) -> Vec<Generator> {
     let corpus_len = e2::corpus().len() as u64;
@@ -50,6 +76,7 @@ fn generators(cfg: &Cfg) -> Vec<Generator> {
         Generator { name: "e1", total: cfg.tier.pick(1_500, 60_000), run: run_e1, case_cpu_limit_s: 60 },
         Generator { name: "multifile", total: cfg.tier.pick(2_000, 100_000), run: run_multifile, case_cpu_limit_s: 60 },
         Generator { name: "trivia", total: cfg.tier.pick(4_000, 250_000), run: run_trivia, case_cpu_limit_s: 60 },
+        Generator { name: "witness", total: 2 * WITNESSES.len() as u64, run: run_witness, case_cpu_limit_s: 60 },
     ]
 }
 
@@ -109,6 +136,11 @@ fn make_input(generator: &str, cfg: &Cfg, index: u64) -> Input {
             let (text, _, _) = e1::print::program_text_mut(&program, &style, cfg.seed ^ index, target);
             // additionally a token-level mutation half of the time (well-formed syntax, ill-formed meaning vs. broken syntax)
             let text = if rng.chance(1, 2) { mutate::mutate_tokens(&text, &mut rng, 1) } else { text };
+            Input::Overlay(Sources::single(text))
+        }
+        | "witness" => {
+            let w = WITNESSES[(index / 2) as usize];
+            let text = if index % 2 == 0 { w.to_string() } else { format!("{}{}\n", MiniPrelude::core().text(), w) };
             Input::Overlay(Sources::single(text))
         }
         | "trivia" => {
@@ -309,7 +341,7 @@ fn run_case(generator: &'static str, cfg: &Cfg, index: u64, stats: &mut Stats) {
     let overlay_like = !sources.files[0].0.starts_with('/');
     // out of process: every suspicion, and a seeded 2 % sample of overlay inputs
     let mut out_of_process_problem = None;
-    if overlay_like && (problem.is_some() || rng.chance(1, 50)) {
+    if overlay_like && (problem.is_some() || generator == "witness" || rng.chance(1, 50)) {
         let (ok, status) = confirm_out_of_process(&sources);
         stats.count("out_of_process_runs");
         stats.cover("cli_exit_status", &status);
@@ -384,6 +416,9 @@ fn run_multifile(cfg: &Cfg, index: u64, stats: &mut Stats) {
 }
 fn run_trivia(cfg: &Cfg, index: u64, stats: &mut Stats) {
     run_case("trivia", cfg, index, stats)
+}
+fn run_witness(cfg: &Cfg, index: u64, stats: &mut Stats) {
+    run_case("witness", cfg, index, stats)
 }
 
 /// A shard died or ran out of CPU on a case: decide by running the real CLI on the same input.
